@@ -1134,6 +1134,86 @@ class Interp:
             lib.cJSONUtils_ApplyPatchesCaseSensitive(dup, patch)
             lib.cJSON_Delete(dup)
             lib.cJSON_Delete(patch)
+            # operations derived from the document itself (the document may hold constant keys and borrowed strings): values
+            # copied and moved between members and array positions, replaced and removed - on a copy of the document
+            locs = []
+
+            def walk_model(n, path, depth):
+                locs.append((path, n))
+                if depth > 3 or len(locs) > 24:
+                    return
+                for i, ch in enumerate(n.children[:6]):
+                    step = (b"%d" % i) if n.t == "A" else ch.key.replace(b"~", b"~0").replace(b"/", b"~1")
+                    walk_model(ch, path + b"/" + step, depth + 1)
+            walk_model(r1, b"", 0)
+            if len(locs) > 1:
+                patch = lib.cJSON_CreateArray()
+                sel = d >> 3
+                for j in range(1 + sel % 3):
+                    src_path, src = locs[1 + (sel >> (2 + 3 * j)) % (len(locs) - 1)]
+                    conts = [(pth, n) for pth, n in locs if n.t in "AO"]
+                    dst_path, dst = conts[(sel >> (5 + 3 * j)) % len(conts)]
+                    tail = (b"/-", b"/0", b"/1")[(sel >> j) % 3] if dst.t == "A" else (b"/moved here", b"/" + KEY_POOL[(sel >> j) % len(KEY_POOL)].replace(b"~", b"~0").replace(b"/", b"~1"))[(sel >> j) & 1]
+                    opname = (b"copy", b"move", b"copy", b"replace", b"remove", b"add", b"test")[(sel >> (1 + 2 * j)) % 7]
+                    op = lib.cJSON_CreateObject()
+                    lib.cJSON_AddItemToObject(op, b"op", lib.cJSON_CreateString(opname))
+                    if opname in (b"copy", b"move"):
+                        lib.cJSON_AddItemToObject(op, b"from", lib.cJSON_CreateString(src_path))
+                        lib.cJSON_AddItemToObject(op, b"path", lib.cJSON_CreateString(dst_path + tail))
+                    elif opname in (b"replace", b"remove", b"test"):
+                        lib.cJSON_AddItemToObject(op, b"path", lib.cJSON_CreateString(src_path))
+                    else:
+                        lib.cJSON_AddItemToObject(op, b"path", lib.cJSON_CreateString(dst_path + tail))
+                    if opname in (b"replace", b"add", b"test"):
+                        # the value is a copy of a piece of the other document: it may carry constant keys as well
+                        lib.cJSON_AddItemToObject(op, b"value", lib.cJSON_Duplicate(r2.ptr, 1))
+                    lib.cJSON_AddItemToArray(patch, op)
+                dup = lib.cJSON_Duplicate(r1.ptr, 1)
+                (lib.cJSONUtils_ApplyPatchesCaseSensitive if cs else lib.cJSONUtils_ApplyPatches)(dup, patch)
+                lib.cJSON_Delete(dup)
+                lib.cJSON_Delete(patch)
+                self.feat.add("utils_document_derived_patch")
+            # a document that holds REFERENCES to values owned elsewhere (a whole tree, a string in caller memory): patches that
+            # replace, remove, copy or move those members - never edit through them - must release the reference nodes only
+            if (d >> 2) % 3 == 0:
+                holder = lib.cJSON_CreateObject()
+                lib.cJSON_AddItemReferenceToObject(holder, b"tree", r2.ptr)
+                lib.cJSON_AddItemToObject(holder, b"text", lib.cJSON_CreateStringReference(ar[b"/borrowed~1path~0"]))
+                lib.cJSON_AddItemToObjectCS(holder, ar[b"/k"], lib.cJSON_CreateArray())
+                lib.cJSON_AddItemReferenceToArray(lib.cJSON_GetObjectItem(holder, b"/k"), r2.ptr)
+                lib.cJSON_AddItemToObject(holder, b"own", lib.cJSON_CreateNumber(2.0))
+                which = (d >> 5) % 4
+                if which < 2:
+                    mp = lib.cJSON_CreateObject()
+                    inner = lib.cJSON_CreateObject()
+                    lib.cJSON_AddItemToObject(inner, b"fresh", lib.cJSON_CreateTrue())
+                    # (an object patch value merges INTO an object target - that would edit through the reference; every other
+                    # kind of target is thrown away and replaced)
+                    if which == 0 and r2.t == "O":
+                        lib.cJSON_AddItemToObject(mp, b"tree", lib.cJSON_CreateString(b"replaces the reference"))
+                        lib.cJSON_AddItemToObject(mp, b"text", inner)
+                    else:
+                        lib.cJSON_AddItemToObject(mp, b"tree" if which == 0 else b"text", inner)
+                    lib.cJSON_AddItemToObject(mp, b"/k", lib.cJSON_CreateNull() if d & 64 else lib.cJSON_Duplicate(inner, 1))
+                    res = (lib.cJSONUtils_MergePatchCaseSensitive if cs else lib.cJSONUtils_MergePatch)(holder, mp)
+                    lib.cJSON_Delete(mp)
+                    lib.cJSON_Delete(res)
+                else:
+                    patch = lib.cJSON_CreateArray()
+                    for opname, path, frm in (((b"replace", b"/tree", None), (b"move", b"/~1k/-", b"/text"), (b"remove", b"/~1k/0", None)) if which == 2 else
+                                              ((b"copy", b"/~1k/0", b"/tree"), (b"remove", b"/tree", None), (b"move", b"/own", b"/~1k"))):
+                        op = lib.cJSON_CreateObject()
+                        lib.cJSON_AddItemToObject(op, b"op", lib.cJSON_CreateString(opname))
+                        lib.cJSON_AddItemToObject(op, b"path", lib.cJSON_CreateString(path))
+                        if frm is not None:
+                            lib.cJSON_AddItemToObject(op, b"from", lib.cJSON_CreateString(frm))
+                        if opname == b"replace":
+                            lib.cJSON_AddItemToObject(op, b"value", lib.cJSON_CreateString(b"replacement"))
+                        lib.cJSON_AddItemToArray(patch, op)
+                    (lib.cJSONUtils_ApplyPatchesCaseSensitive if cs else lib.cJSONUtils_ApplyPatches)(holder, patch)
+                    lib.cJSON_Delete(patch)
+                    lib.cJSON_Delete(holder)
+                self.feat.add("utils_on_reference_holder")
             # a value moved (or copied) to a place inside itself, the destination spelt in another letter case than the source:
             # for the case-insensitive entry point both name the same member.  Whatever the verdict, nothing may be lost.
             if kids and (lib.shim_type(r1.ptr) & 0xFF) == 64:
